@@ -18,10 +18,174 @@ regenerated definitions, in the order of first assignment in the source):
                       p2sEllMinor (ra dec ra2 dec2 ra2' dec2'), over the regenerated gcdSep / bear
   pix2sky_vec      -> p2sVecRa, p2sVecDec, p2sVecLen, p2sVecPa (ra1 dec1 ra2 dec2)
 """
+
+# ---------------------------------------------------------------------------------------------------------------
+# Source normalisation (an extension of the shared translator, kept here because targets files may carry one):
+# PRIVATE HELPER METHODS ARE INLINED.  `targets = self._helper(args)` inside a translated method is replaced by the
+# helper's body when — and only when — the helper is a method of the same class whose name starts with `_`, takes
+# positional parameters only, never re-binds a parameter, and consists of nothing but a docstring, plain assignments to
+# names / tuples of names, and ONE final `return`.  Anything else (loops, branches, augmented or subscript assignment,
+# calls as statements — i.e. anything that could mutate state) is left as an opaque call, whose results become inputs
+# of the regenerated definitions as before.  Parameters are substituted by the argument expressions, helper locals are
+# renamed apart.  The public WCS entry points (sky2pix, pix2sky, ...) are never inlined: their results ARE the inputs.
+# The normalised source is written next to the system temp dir and the targets point at it; if anything at all goes
+# wrong the original file is used.
+# ---------------------------------------------------------------------------------------------------------------
+import ast as _ast
+import copy as _copy
+import hashlib as _hashlib
+import os as _os
+import sys as _sys
+import tempfile as _tempfile
+
+
+def _repo_root():
+    if len(_sys.argv) >= 3 and _os.path.basename(_sys.argv[0]) == 'py2lean.py':
+        return _sys.argv[2]
+    return _os.environ.get('AEGEAN_REPO', '/repo')
+
+
+def _simple_helper(fn):
+    """(params, body statements, return expr) if `fn` is inlinable, else None"""
+    a = fn.args
+    if a.vararg or a.kwarg or a.kwonlyargs or a.defaults or a.posonlyargs:
+        return None
+    deco = [d.id for d in fn.decorator_list if isinstance(d, _ast.Name)]
+    if len(deco) != len(fn.decorator_list) or any(d != 'staticmethod' for d in deco):
+        return None
+    params = [x.arg for x in a.args]
+    if 'staticmethod' not in deco:
+        if not params or params[0] != 'self':
+            return None
+        params = params[1:]
+    body = list(fn.body)
+    if body and isinstance(body[0], _ast.Expr) and isinstance(body[0].value, _ast.Constant) and isinstance(body[0].value.value, str):
+        body = body[1:]
+    if not body or not isinstance(body[-1], _ast.Return) or body[-1].value is None:
+        return None
+    assigned = set()
+    for st in body[:-1]:
+        if not (isinstance(st, _ast.Assign) and len(st.targets) == 1):
+            return None
+        t = st.targets[0]
+        names = [t] if isinstance(t, _ast.Name) else (list(t.elts) if isinstance(t, _ast.Tuple) else None)
+        if names is None or not all(isinstance(n, _ast.Name) for n in names):
+            return None
+        assigned |= {n.id for n in names}
+    if assigned & set(params):
+        return None
+    for node in _ast.walk(fn):
+        if isinstance(node, (_ast.Lambda, _ast.ListComp, _ast.GeneratorExp, _ast.DictComp, _ast.SetComp, _ast.NamedExpr,
+                             _ast.Yield, _ast.YieldFrom, _ast.Await, _ast.Starred)):
+            return None
+    return params, body[:-1], body[-1].value, assigned
+
+
+class _Subst(_ast.NodeTransformer):
+    def __init__(self, mapping):
+        self.mapping = mapping
+
+    def visit_Name(self, node):
+        if node.id in self.mapping:
+            new = self.mapping[node.id]
+            if isinstance(new, str):
+                return _ast.copy_location(_ast.Name(id=new, ctx=node.ctx), node)
+            return _copy.deepcopy(new)
+        return node
+
+
+def _inline_class(cls):
+    helpers = {}
+    for st in cls.body:
+        if isinstance(st, _ast.FunctionDef) and st.name.startswith('_') and not st.name.startswith('__'):
+            h = _simple_helper(st)
+            if h is not None:
+                helpers[st.name] = h
+    counter = [0]
+
+    def expand(stmts, depth=0):
+        out = []
+        for st in stmts:
+            call = st.value if isinstance(st, _ast.Assign) and len(st.targets) == 1 else None
+            if (depth < 4 and isinstance(call, _ast.Call) and isinstance(call.func, _ast.Attribute)
+                    and isinstance(call.func.value, _ast.Name) and call.func.value.id == 'self'
+                    and call.func.attr in helpers and not call.keywords
+                    and len(call.args) == len(helpers[call.func.attr][0])):
+                params, body, ret, assigned = helpers[call.func.attr]
+                counter[0] += 1
+                mapping = {v: '_h%d_%s' % (counter[0], v) for v in assigned}
+                mapping.update({p: a for p, a in zip(params, call.args)})
+                sub = _Subst(mapping)
+                new = [sub.visit(_copy.deepcopy(b)) for b in body]
+                new.append(_ast.Assign(targets=[st.targets[0]], value=sub.visit(_copy.deepcopy(ret))))
+                out += expand(new, depth + 1)
+            else:
+                out.append(st)
+        return out
+
+    changed = False
+    for st in cls.body:
+        if isinstance(st, _ast.FunctionDef) and st.name not in helpers:
+            new = expand(st.body)
+            if len(new) != len(st.body):
+                st.body = new
+                _propagate_tuples(st)
+                changed = True
+    return changed
+
+
+def _propagate_tuples(fn):
+    """`c = (a, b)` ... `u, v = c`  becomes  `u, v = (a, b)` when `c`, `a`, `b` are each bound exactly once in the function
+    (straight-line top-level statements only), so that a tuple handed to an inlined helper is seen through"""
+    count = {}
+    for node in _ast.walk(fn):
+        if isinstance(node, _ast.Name) and isinstance(node.ctx, _ast.Store):
+            count[node.id] = count.get(node.id, 0) + 1
+        elif isinstance(node, _ast.arg):
+            count[node.arg] = count.get(node.arg, 0) + 1
+    env = {}
+    for st in fn.body:
+        if isinstance(st, _ast.Assign) and len(st.targets) == 1:
+            t, v = st.targets[0], st.value
+            if isinstance(t, _ast.Tuple) and isinstance(v, _ast.Name) and v.id in env and len(env[v.id].elts) == len(t.elts):
+                st.value = _copy.deepcopy(env[v.id])
+            elif (isinstance(t, _ast.Name) and isinstance(v, _ast.Tuple) and count.get(t.id) == 1
+                  and all(isinstance(e, _ast.Name) and count.get(e.id, 0) <= 1 for e in v.elts)):
+                env[t.id] = v
+
+
+def _normalised(relpath):
+    """path of the helper-inlined copy of <repo>/<relpath> (or relpath itself when there is nothing to inline)"""
+    try:
+        src = _os.path.join(_repo_root(), relpath)
+        text = open(src).read()
+        tree = _ast.parse(text)
+        changed = False
+        for node in tree.body:
+            if isinstance(node, _ast.ClassDef):
+                changed = _inline_class(node) or changed
+        if not changed:
+            return relpath
+        _ast.fix_missing_locations(tree)
+        out = _ast.unparse(tree)
+        _ast.parse(out)
+        d = _os.path.join(_tempfile.gettempdir(), 'verif-C16-normalised')
+        _os.makedirs(d, exist_ok=True)
+        path = _os.path.join(d, _hashlib.sha1((src + text + open(__file__).read()).encode()).hexdigest()[:16] + '_' + _os.path.basename(relpath))
+        if not _os.path.exists(path):
+            tmp = path + '.%d' % _os.getpid()
+            with open(tmp, 'w') as f:
+                f.write(out)
+            _os.replace(tmp, path)
+        return path
+    except Exception:
+        return relpath
+
+
 _A4 = ['ra1', 'dec1', 'ra2', 'dec2']
 _T4 = ['ra', 'dec', 'r', 'theta']
 _F = 'AegeanTools/angle_tools.py'
-_W = 'AegeanTools/wcs_helpers.py'
+_W = _normalised('AegeanTools/wcs_helpers.py')
 _H = 'Aegean.Model.C16Hand'
 
 
